@@ -102,6 +102,19 @@ impl GarbageCollectionLock {
             .map_err(Error::from)
     }
 
+    /// Returns true if a listing of the archive directory shows the gc lock.
+    ///
+    /// This is for a backup that has just created its band: one listing taken at
+    /// that point tells it whether a gc is in progress.
+    pub async fn is_locked_in_listing(archive: &Archive) -> Result<bool> {
+        Ok(archive
+            .transport()
+            .list_dir("")
+            .await?
+            .iter()
+            .any(|entry| entry.name == GC_LOCK && entry.kind == Kind::File))
+    }
+
     /// Check that no new versions have been created in this archive since
     /// the guard was created.
     pub async fn check(&self) -> Result<()> {
